@@ -228,7 +228,17 @@ class Collection:
         num_obs_other = len(other)
 
         if num_obs_self == 0:
-            only_in_other = only_in_other | set(self._fields.keys())
+            # Fields of an empty self are replaced by the fields of other. Collections that both have are extended
+            # field by field instead, otherwise nested fields that only self has would be lost.
+            only_in_other = only_in_other | {
+                name
+                for name, field in self._fields.items()
+                if not (
+                    field.fieldtype == "collection"
+                    and name in other._fields
+                    and other._fields[name].fieldtype == "collection"
+                )
+            }
 
         if num_obs_other == 0:
             only_in_self = only_in_self | set(other._fields.keys())
